@@ -306,6 +306,18 @@ def raw_fields(chk):
             chk.violation("%s: the field does not occupy %d consecutive bytes of the record" % (name, w), {"site": name}, False)
             return
         start = diff[0]
+        # a text that is a str SUBCLASS instance (a str-Enum member, say) is written as the text it is
+        from harness import api
+        for t in ("c7", "caf\xe9 \u20ac", "x" * (w - 1)):
+            chk.count("text given as an instance of a str subclass")
+            try:
+                back = decode(make(api.Named(t)))
+            except Exception as e:
+                back = "raised " + common.exc_info(e)
+            if back != t:
+                chk.violation("%s: the text %r given as an instance of a str subclass (whose str() differs) comes back as %r" % (name, t[:30], str.__str__(back)[:60] if isinstance(back, str) else back),
+                              {"site": name, "text": [ord(c) for c in t], "given_as": "str subclass with its own __str__"}, True)
+                return
         fields = []
         for text in (b"", b"x", b"Right Heel Strike", b"caf\xe9 \x80", b"y" * (w - 2), b"z" * (w - 1)):
             n = len(text)
